@@ -496,6 +496,7 @@ def run(ctx, res):
     from rules import c13
     I2, ip2, outs2, info2, names2, body2, g2, busfi2 = c13.analyse(facts)
     nord = 0
+    rotated = []
     for o in outs2:
         st2 = o.state
         if st2.ctr.get(("visit", info2["header"]), 0) == 0:
@@ -508,11 +509,25 @@ def run(ctx, res):
             continue
         nord += 1
         nt = kinds.count("try_interrupt")
+        failed2 = [t_ for t_ in st2.tags if t_.startswith("failed:")]
         okk = nt == 1 and kinds.count("fetch") <= 1 and kinds.count("exec") <= 1
         if okk and "fetch" in kinds:
             okk = kinds.index("try_interrupt") < kinds.index("fetch")
         if okk and "exec" in kinds:
             okk = kinds.index("try_interrupt") < kinds.index("exec") and ("fetch" not in kinds or kinds.index("fetch") < kinds.index("exec"))
+        if not okk and kinds.count("fetch") <= 1 and kinds.count("exec") <= 1 and "exec" in kinds:
+            # the rotated loop: the boundary poll sits at the END of the iteration, after the exit test - the same sequence of
+            # boundaries (poll, instruction, poll, instruction ...) as long as the run that ends at the exit address polls no more
+            after_exec = kinds[kinds.index("exec") + 1:]
+            before_exec = kinds[:kinds.index("exec")]
+            if "try_interrupt" not in before_exec:
+                if o.kind == "stop":
+                    okk = after_exec.count("try_interrupt") == 1 and after_exec[-1] == "try_interrupt"
+                elif o.kind == "return" and not failed2:
+                    okk = nt == 0          # Ok at the exit address: returned before the poll
+                else:
+                    okk = nt <= 1          # an error ends the run wherever it occurs
+                rotated.append(o.kind)
         res.ob(okk)
         if not okk:
             res.finding("boundary|order", "an iteration of the run loop does not perform try_interrupt exactly once before fetch and exec (effects %r)" % [k_ for k_ in kinds if k_ in ("try_interrupt", "fetch", "exec")])
